@@ -255,6 +255,21 @@ fn handle(req: &Value) -> Value {
             json!({"kind": "ok", "library": a.map(|v| from_var(&v)).map_err(|e| format!("{}", e)).unwrap_or_else(|e| json!({"$error": e})),
                    "serde_json": b.map(|v| value_tagged(&v)).unwrap_or_else(|e| json!({"$error": format!("{}", e)}))})
         }
+        "json_identity" => {
+            // from_json -> search('@') -> to_string -> compare with serde_json's own reading of the input and of the output
+            let text = req["text"].as_str().unwrap();
+            match Variable::from_json(text) {
+                Err(e) => json!({"kind": "err", "message": e, "serde_json_accepts": serde_json::from_str::<Value>(text).is_ok()}),
+                Ok(v) => {
+                    let r = jmespath::compile("@").unwrap().search(v).unwrap();
+                    let printed = r.to_string();
+                    let a: Result<Value, _> = serde_json::from_str(text);
+                    let b: Result<Value, _> = serde_json::from_str(&printed);
+                    let eq = match (&a, &b) { (Ok(x), Ok(y)) => value_tagged(x) == value_tagged(y), _ => false };
+                    json!({"kind": "ok", "printed": printed, "equal": eq})
+                }
+            }
+        }
         "from_json" => match Variable::from_json(req["text"].as_str().unwrap()) {
             Ok(v) => json!({"kind": "ok", "value": from_var(&v)}),
             Err(e) => json!({"kind": "err", "message": e}),
